@@ -11,6 +11,7 @@ def parseOp (s : String) : Option (List Op) :=
   | 'f' :: r => (String.ofList r).toNat?.map (fun n => [Op.fftC n])          -- ifft(n): IfftPlan(n) -> FftPlan(n)
   | 'r' :: r => (String.ofList r).toNat?.map (fun n => [Op.fftR n])
   | 'i' :: r => (String.ofList r).toNat?.map (fun n => [Op.fftR n, Op.irfft n])   -- irfft(fft(x_real), n)
+  | 'h' :: r => (String.ofList r).toNat?.map (fun n => [Op.fftR n, Op.irfft n])   -- irfft(first n/2+1 bins of fft(x_real), n)
   | 'z' :: r =>
     match (String.ofList r).splitOn ":" with
     | [a, b] => do pure [Op.czt (← a.toNat?) (← b.toNat?)]
